@@ -309,6 +309,39 @@ def run(ctx):
         elif step_bad:
             ctx.fail("operator:history-step-wrong", desc, "each insertion adds w*P; pruning drops only negligible strings", step_bad)
 
+    # ---------------------------------------------------------------- operators: weights of any magnitude, list ownership
+    for h in range(300 if ctx.thorough else 60):
+        n = rng.randint(1, 3)
+        k = rng.randint(1, 5)
+        items = []
+        for _ in range(k):
+            a = rand_p(rng, n)
+            e = rng.choice([0, -8, -20, -27, -30, -40, -60, -200, -1000, 30])
+            w = rng.choice([1, -1, 1j, -1j, 1 + 1j, 0.5 - 2j, 3]) * 2.0 ** e
+            items.append((a, w))
+        desc = {"kind": "magnitudes", "n": n, "items": [(a, repr(w)) for a, w in items]}
+        ctx.count("magnitudes_k=%d" % k)
+        ctx.nontriv(desc)
+        lst = [WeightedPauliString(mk(*a), w) for a, w in items]
+        op = PauliOperator(lst)
+        exp = sum((w * ref_matrix(*a) for a, w in items), np.zeros((2 ** n, 2 ** n), dtype=complex))
+        got = dense(op.as_matrix())
+        if not np.allclose(got, exp, rtol=1e-12, atol=0):
+            ctx.fail("operator:matrix-loses-small-or-large-weights", desc, "weighted sum entry by entry (rtol 1e-12)", "differs")
+        # the operator owns its list: a second operator built from the same list, later insertions and
+        # edits of the caller's list do not leak
+        op2 = PauliOperator(lst)
+        # (a string the operator does not hold yet, so that it is appended and no shared term object is updated)
+        used = {(tuple(a[0]), tuple(a[1])) for a, _ in items}
+        free = [(z, x) for z in itertools.product([0, 1], repeat=n) for x in itertools.product([0, 1], repeat=n)
+                if (z, x) not in used]
+        if free:
+            z, x = free[rng.randrange(len(free))]
+            op2.add_pauli_string(WeightedPauliString(mk(list(z), list(x), 0), 7))
+        lst.append(WeightedPauliString(mk(*rand_p(rng, n)), 5))
+        if not np.allclose(dense(op.as_matrix()), exp, rtol=1e-12, atol=0) or len(op.pstrings) != k:
+            ctx.fail("operator:shares-its-list-with-the-caller-or-another-operator", desc, "unchanged by edits of the list it was built from", "changed")
+
     # ---------------------------------------------------------------- raw constructor data
     def raw(rng, n):
         return [rng.choice([0, 1, 0, 1, 0, 1, 2, -1]) for _ in range(n)]
@@ -421,6 +454,21 @@ def replay(ctx, data):
                     bad |= not np.array_equal(opmat(), before)
         if zero_only and op.pstrings:
             bad |= not np.array_equal(dense(op.as_matrix()), added)
+    elif inp.get("kind") == "magnitudes":
+        n = inp["n"]
+        items = [(a, complex(w)) for a, w in inp["items"]]
+        lst = [WeightedPauliString(PauliString(*a), w) for a, w in items]
+        op = PauliOperator(lst)
+        exp = sum((w * ref_matrix(*a) for a, w in items), np.zeros((2 ** n, 2 ** n), dtype=complex))
+        bad |= not np.allclose(dense(op.as_matrix()), exp, rtol=1e-12, atol=0)
+        op2 = PauliOperator(lst)
+        used = {(tuple(a[0]), tuple(a[1])) for a, _ in items}
+        free = [(z, x) for z in itertools.product([0, 1], repeat=n) for x in itertools.product([0, 1], repeat=n)
+                if (z, x) not in used]
+        if free:
+            op2.add_pauli_string(WeightedPauliString(PauliString(list(free[0][0]), list(free[0][1]), 0), 7))
+        lst.append(WeightedPauliString(PauliString([1] * n, [0] * n, 0), 5))
+        bad |= not np.allclose(dense(op.as_matrix()), exp, rtol=1e-12, atol=0) or len(op.pstrings) != len(items)
     elif inp.get("kind") == "set_pauli":
         LCODE = {"I": (0, 0), "X": (0, 1), "Y": (1, 1), "Z": (1, 0)}
         a = inp["a"]
